@@ -71,7 +71,7 @@ func optionModel(target string, vals map[string]interface{}, run *engine.Run, ba
 		return b, isB
 	}
 	switch target {
-	case "w_subject_contains_html_entities":
+	case "e_subj_contains_html_entities":
 		if b, p := asBool("Skip"); p && b {
 			return lint.Pass, true
 		}
@@ -307,7 +307,7 @@ func configTargetsObjects() map[string][]gen.Obj {
 // altDocs: for each configurable lint of today, a configuration that changes
 // its behaviour on some objects.
 var altDocs = map[string]string{
-	"w_subject_contains_html_entities": "[w_subject_contains_html_entities]\nSkip = true\n",
+	"e_subj_contains_html_entities": "[e_subj_contains_html_entities]\nSkip = true\n",
 	"e_subj_orgunit_in_ca_cert":        "[e_subj_orgunit_in_ca_cert]\nCrossCert = true\n",
 	"e_crl_next_update_invalid":        "[e_crl_next_update_invalid]\nSubscriberCRL = false\n",
 	"e_rsa_fermat_factorization":       "[e_rsa_fermat_factorization]\nRounds = 0\n",
@@ -498,6 +498,24 @@ func (h *c11History) stepInner(op c11Op) (sig, msg string, skipped bool) {
 func TestC11(t *testing.T) {
 	rec := newRec(t, "C11")
 	cis := engine.Configurables()
+	// the option models below are keyed by lint name: say in the evidence which configurable lints they cover, and
+	// which of their keys name no configurable lint of this tree (a renamed lint must not silently lose its model)
+	{
+		known := map[string]bool{}
+		for _, ci := range cis {
+			known[ci.Name] = true
+			if altDocs[ci.Name] == "" {
+				rec.Class("configurable_without_option_model:" + ci.Name)
+			} else {
+				rec.Class("configurable_with_option_model:" + ci.Name)
+			}
+		}
+		for n := range altDocs {
+			if !known[n] {
+				rec.Class("option_model_for_unknown_lint:" + n)
+			}
+		}
+	}
 	// (b) example configuration: valid TOML, a table per configurable lint
 	ex, err := lint.GlobalRegistry().DefaultConfiguration()
 	rec.Eval()
@@ -612,6 +630,49 @@ func TestC11(t *testing.T) {
 			}
 		}
 	})
+	// (h) an example configuration that was handed out stays what it was, whatever is rendered afterwards (for
+	// other registries, for the same one), and rendering twice gives the same bytes
+	{
+		g := lint.GlobalRegistry()
+		var regs []lint.Registry
+		regs = append(regs, g)
+		for _, fo := range []lint.FilterOptions{{IncludeSources: lint.SourceList{lint.Community}}, {ExcludeNames: []string{"e_rsa_fermat_factorization"}}, {IncludeNames: []string{"e_subj_contains_html_entities", "e_crl_next_update_invalid"}}, {IncludeSources: lint.SourceList{lint.CABFBaselineRequirements}}} {
+			if r, err := g.Filter(fo); err == nil {
+				regs = append(regs, r)
+			}
+		}
+		type held struct {
+			b    []byte
+			copy string
+			reg  int
+		}
+		var hs []held
+		for round := 0; round < 3; round++ {
+			for ri, r := range regs {
+				b, err := r.DefaultConfiguration()
+				if err != nil {
+					continue
+				}
+				hs = append(hs, held{b, string(b), ri})
+				rec.Eval()
+				rec.Class("example_held")
+				for _, h := range hs {
+					if string(h.b) != h.copy {
+						c := c11Case{Mode: "example", TOML: h.copy, Shape: fmt.Sprintf("example of registry %d, held while registry %d rendered its own", h.reg, ri)}
+						if rec.Report("c11", "example-aliased", fmt.Sprintf("the example configuration of registry %d, kept by its caller, changed when registry %d rendered its example (now %d bytes starting %q)", h.reg, ri, len(h.b), short(string(h.b), 60)), c) {
+							t.Fatalf("c11: an example configuration handed out earlier was overwritten by a later DefaultConfiguration call")
+						}
+					}
+					if h.reg == ri && h.copy != string(b) {
+						c := c11Case{Mode: "example", TOML: h.copy, Shape: "rendered twice"}
+						if rec.Report("c11", "example-unstable", fmt.Sprintf("registry %d renders two different example configurations", ri), c) {
+							t.Fatalf("c11: DefaultConfiguration is not stable for registry %d", ri)
+						}
+					}
+				}
+			}
+		}
+	}
 	// (g) the three loaders agree: a document means the same whether it comes from a string, a reader or a
 	// file, whatever its size (comment preambles of 0 B ... 1 MiB, sizes around powers of two) - an option set
 	// after the preamble still changes its lint, and only that
@@ -665,9 +726,9 @@ func TestC11(t *testing.T) {
 		cliConfigMatrix(t, rec, cli, stats.Scale(2, 6), "")
 	}
 	// (e) stateful: configuration does not leak between registries or runs
-	docs := []string{"", "[w_subject_contains_html_entities]\nSkip = true\n", "[e_subj_orgunit_in_ca_cert]\nCrossCert = true\n",
+	docs := []string{"", "[e_subj_contains_html_entities]\nSkip = true\n", "[e_subj_orgunit_in_ca_cert]\nCrossCert = true\n",
 		"[e_crl_next_update_invalid]\nSubscriberCRL = false\n", "[e_rsa_fermat_factorization]\nRounds = 0\n", "e_rsa_fermat_factorization = 3\n",
-		"[w_subject_contains_html_entities]\nSkip = \"yes\"\n"}
+		"[e_subj_contains_html_entities]\nSkip = \"yes\"\n"}
 	rapidRun(t, "histories", perShard(stats.Scale(600, 20000)), func(rt *rapid.T) {
 		h := newC11History()
 		defer h.close()
